@@ -496,6 +496,63 @@ func goEqual(a, b reflect.Value) bool {
 	return reflect.DeepEqual(a.Interface(), b.Interface())
 }
 
+// scribble edits a decoded value in place wherever that is possible without replacing the
+// containers themselves: slice elements are zeroed, map entries deleted, structs behind
+// pointers edited field by field.
+func scribble(v reflect.Value, depth int) {
+	if depth > 6 || !v.IsValid() {
+		return
+	}
+	switch v.Kind() {
+	case reflect.Ptr, reflect.Interface:
+		if !v.IsNil() {
+			scribble(v.Elem(), depth+1)
+		}
+	case reflect.Struct:
+		for i := 0; i < v.NumField(); i++ {
+			if v.Field(i).CanSet() {
+				scribble(v.Field(i), depth+1)
+			}
+		}
+	case reflect.Slice:
+		for i := 0; i < v.Len(); i++ {
+			el := v.Index(i)
+			if el.Kind() == reflect.Ptr || el.Kind() == reflect.Slice || el.Kind() == reflect.Map {
+				scribble(el, depth+1)
+			} else if el.CanSet() {
+				el.Set(reflect.Zero(el.Type()))
+			}
+		}
+		if v.Len() > 1 && v.Index(0).CanSet() {
+			// swap the ends
+			a, b := v.Index(0).Interface(), v.Index(v.Len()-1).Interface()
+			v.Index(0).Set(reflect.ValueOf(b))
+			v.Index(v.Len() - 1).Set(reflect.ValueOf(a))
+		}
+	case reflect.Map:
+		for _, k := range v.MapKeys() {
+			scribble(v.MapIndex(k), depth+1)
+			v.SetMapIndex(k, reflect.Value{})
+		}
+	case reflect.Int8, reflect.Int16, reflect.Int32, reflect.Int64, reflect.Int:
+		if v.CanSet() {
+			v.SetInt(v.Int() ^ 0x55)
+		}
+	case reflect.Float64:
+		if v.CanSet() {
+			v.SetFloat(-1)
+		}
+	case reflect.Bool:
+		if v.CanSet() {
+			v.SetBool(!v.Bool())
+		}
+	case reflect.String:
+		if v.CanSet() {
+			v.SetString("scribbled")
+		}
+	}
+}
+
 func sortedEntries(m reflect.Value) [][2]reflect.Value {
 	var out [][2]reflect.Value
 	it := m.MapRange()
@@ -736,6 +793,24 @@ func RunC04(cfg simrt.Config, o world.Opts) *world.Result {
 			res.Failf("C04/panic", "%s: streaming path panicked on %x: %s", e.Name, clip(b, 96), st.panic)
 			return
 		}
+		if vb.ok && st.ok && vb.obj != nil && st.obj != nil && sameGen(vb, st) && simrt.Flip("c04.decode-scribble-decode", 0.15) {
+			// the application edits what it decoded, in place, and decodes the same bytes again:
+			// the second result must be what the first one was
+			scribble(reflect.ValueOf(st.obj), 0)
+			scribble(reflect.ValueOf(vb.obj), 0)
+			st2 := streaming(e, b, full)
+			vb2 := valueBased(e, b)
+			res.Count("c04.decoded-again-after-editing-the-first-result", 1)
+			if st2.ok && vb2.ok && !sameGen(vb2, st2) {
+				res.Failf("C04/values-differ", "%s on %x (%s), decoded a second time after the first results were edited in place: value-based %s, streaming %s%s", e.Name, clip(b, 96), desc, vb2, st2, goDiff(vb2, st2))
+				return
+			}
+			if st2.ok != st.ok || vb2.ok != vb.ok {
+				res.Failf("C04/values-differ", "%s on %x (%s): accepted at first, second decode of the same bytes: value-based %s, streaming %s", e.Name, clip(b, 96), desc, vb2, st2)
+				return
+			}
+			vb, st = vb2, st2
+		}
 		switch {
 		case vb.ok && st.ok:
 			res.Count("c04.both-accept", 1)
@@ -872,6 +947,46 @@ func c04Serialize(res *world.Result, e registry.Entry, logf func(string, ...inte
 	}
 	if !ref.Equal(v1, v2) {
 		res.Failf("C04/encodings-differ", "%s: streaming Encode gives %s, ToWire+Encode gives %s", e.Name, v1, v2)
+		return
+	}
+	// A writer that runs out of room: a serializer that reports success must have written
+	// its whole encoding (both fail, or both write everything).
+	if simrt.Flip("ser.short-writer", 0.3) && len(w1.Buf) > 0 {
+		room := len(w1.Buf) - 1 - ch("ser.short-by", 4)
+		if ch("ser.short-anywhere", 3) == 0 {
+			room = ch("ser.room", len(w1.Buf))
+		}
+		if room < 0 {
+			room = 0
+		}
+		ws := simio.NewWriter(room)
+		es := guardGen(func() genOutcome {
+			sw := tbinary.Default.Writer(ws)
+			defer sw.Close()
+			if err := x.Encode(sw); err != nil {
+				return genOutcome{err: err.Error()}
+			}
+			return genOutcome{ok: true}
+		})
+		wv := simio.NewWriter(room + len(w2.Buf) - len(w1.Buf))
+		ev := guardGen(func() genOutcome {
+			w, err := x.ToWire()
+			if err != nil {
+				return genOutcome{err: err.Error()}
+			}
+			if err := tbinary.Default.Encode(w, wv); err != nil {
+				return genOutcome{err: "encode: " + err.Error()}
+			}
+			return genOutcome{ok: true}
+		})
+		res.Count("c04.ser.short-writer", 1)
+		if es.panic != "" || ev.panic != "" {
+			res.Failf("C04/serialize-panic", "%s: serializing into a writer with room for %d of %d bytes panicked: streaming=%s value-based=%s", e.Name, room, len(w1.Buf), es, ev)
+			return
+		}
+		if es.ok || ev.ok {
+			res.Failf("C04/short-write-unreported", "%s: a writer with room for %d of %d bytes: streaming Encode -> %s, ToWire+Encode -> %s (an encoding that did not fit was reported as written)", e.Name, room, len(w1.Buf), es, ev)
+		}
 	}
 }
 
